@@ -229,7 +229,9 @@ def location(ctx):
                        '-1 (image space)'
             else:
                 ok = l == (1, kind[1])
-                want = f'k{kind[1]:+d} (the offset it was stored with)'
+                want = (f'k{kind[1]:+d} (the offset it was stored with)'
+                        if isinstance(kind[1], int) else
+                        'one offset (it is stored at several / no offsets)')
             if ok:
                 res.ok(f'{m.name}: {unparse(s)} [{kind if isinstance(kind, str) else "derived"}]')
             else:
@@ -647,7 +649,7 @@ def identities(ctx):
                                A(others[1])):
                 ok = False
             else:
-                kk = sorted(kinds.get(o[5:-4]) for o in others)
+                kk = sorted(str(kinds.get(o[5:-4])) for o in others)
                 if kk != ['space', 'space']:
                     ok = False
     callers = [(m.name, [unparse(a) for a in n.args[0].elts])
